@@ -134,6 +134,19 @@ func CurrentName() string {
 	return ""
 }
 
+// After registers an event that the scheduler performs delta decisions from
+// now. It is called by the running client goroutine (e.g. to cancel, a given
+// number of steps into an operation, the context it has just created).
+func After(delta int, name string, fn func()) {
+	b := current
+	if b == nil {
+		return
+	}
+	b.mu.Lock()
+	b.events = append(b.events, Event{At: b.out.Decisions + delta, Name: name, Fn: fn})
+	b.mu.Unlock()
+}
+
 // Yield is a harness-level hook point (same semantics as the hooks in /repo).
 func Yield(point, id string) {
 	if b := current; b != nil {
